@@ -178,7 +178,7 @@ def exc_matches(exc_obj, handler_cls):
 
 
 class Interp:
-    def __init__(self, repo_root, lib, contracts=None, feas_timeout_ms=1500, max_paths=20000):
+    def __init__(self, repo_root, lib, contracts=None, feas_timeout_ms=400, max_paths=20000):
         self.repo_root = repo_root
         self.lib = lib                      # library models (lib.py)
         self.contracts = contracts or {}    # qualname key -> Contract
@@ -379,8 +379,10 @@ class Interp:
             if extra.op == "bool":
                 if not extra.val:
                     return False
-                if not assertions:
-                    return True
+                return True if not assertions else self.feasible(st)
+            # pc alone is feasible (invariant of the exploration): only the conjuncts that share
+            # symbols, transitively, with the new condition can make the conjunction unsatisfiable
+            assertions = tm.cone(assertions, [extra])
             assertions.append(extra)
         key = frozenset(assertions)
         r = self.feas_cache.get(key)
